@@ -121,6 +121,9 @@ M("C03", "twin: accumulate via differently named local", S, "v2rewrite.py", "   
   "        acc = new_lines[lineno]\n        new_lines[lineno] = acc[:span_l] + replacement + acc[span_r:]")
 M("C03", "twin: reversed(sorted(...))", S, "v2rewrite.py", "in sorted(replacements, reverse=True):", "in reversed(sorted(replacements)):")
 
+M("C03", "memo key covers the first argument only", F, "utils.py", "        key = str(args)", "        key = str(args[0])", "cache key")
+M("C03", "memo caches the result for a truncated argument list", F, "utils.py", "            cache[key] = func(*args)", "            cache[key] = func(*args[:1])", "cached value")
+M("C03", "memo key as repr of the argument tuple", S, "utils.py", "        key = str(args)", "        key = repr(tuple(args))")
 # =============================================================================== C04
 for _f, _mode in (("v2rewrite.py", "rt"), ("v1rewrite.py", "rt")):
     pass
